@@ -2,6 +2,7 @@
 
 mod c02;
 mod c05;
+mod c07;
 mod c11;
 mod c12;
 mod c15;
@@ -70,6 +71,17 @@ fn spec_for(prop: &str, _tier: Tier) -> Option<Spec> {
 		.require("client_iter_after_commit_while_open", 200)
 		.require("tree_depth_ge2", 1)
 		.budget(40, 400),
+		"C07" => Spec::new(
+			"C07",
+			"exploration",
+			"Threaded half: a case is one 1-5 s history with LIVE background workers and seeded delays at the yield hooks. ONE writer issues set / reference / dereference transactions over a small pool of a counted hash column (one history in three: identity-hashed keys of one index page, the index grows under the readers) and a counted btree column, values a function of the key, counts kept in 0..=3 so that keys cross zero all the time; the count of every key after every commit is known exactly. Three readers call get / get_size and record {key, completed-before, started-after, result}. Offline per read: a returned value (size) is the key's own; a read that returned nothing is a violation iff the count was positive when the call began and stayed positive through every commit that had started when it returned. After the threads stopped and the handle was dropped: reopen, a key is readable iff its count is positive, value iteration of the hash column yields exactly the live values with their counts, pvfsck agrees. evaluations = reads judged + final comparisons; distinct_nontrivial = distinct (always_flush, index growth, delay profile, compression) classes.",
+		)
+		.require("threaded_histories", 8)
+		.require("reads_judged", 100_000)
+		.require("reads_nontrivial_window", 5000)
+		.require("rc_zero_crossings_threaded", 1000)
+		.require("absent_reads_with_zero_crossing_in_window", 10)
+		.budget(35, 300),
 		"C11" => Spec::new(
 			"C11",
 			"exploration",
@@ -177,6 +189,7 @@ fn run_one(ctx: &Ctx, rep: &mut Report, case_seed: u64, variant: u64) {
 		"C02" | "C14" => c02::run_case(ctx, rep, case_seed, variant),
 		"C04" => live::run_case(ctx, rep, case_seed, variant),
 		"C05" => c05::run_case(ctx, rep, case_seed, variant),
+		"C07" => c07::run_case(ctx, rep, case_seed, variant),
 		"C11" => c11::run_case(ctx, rep, case_seed, variant),
 		"C12" => c12::run_case(ctx, rep, case_seed, variant),
 		"C15" => c15::run_case(ctx, rep, case_seed, variant),
